@@ -16,6 +16,76 @@ CACHING_DECORATORS = ("cached_property", "functools.cached_property", "lru_cache
 REGISTERED = ("register_dataarray_accessor", "register_dataset_accessor")
 
 
+from ..astutil import ends_with_exit
+
+
+def vivifying_lookups(repo, rep):
+    """R-C18-6: the attribute table is an auto-vivifying dict (F-C18-c): `attrs.ATTRS[k]` on a key that is absent INSERTS an empty entry
+    into the module-level table.  Every read with a key that is not a constant of the table is therefore a call-time write of process
+    state unless a membership test of the same key dominates it.  One obligation (and, if unguarded, one finding instance) per site."""
+    rep.rule("R-C18-6", "every subscript read of the auto-vivifying attribute table with a non-constant key is dominated by a membership test of "
+                        "that key (each unguarded site is its own trigger of the module-level insertion, F-C18-c)")
+    try:
+        ad = repo.cls("wavespectra.core.attributes.AttrDict")
+        vivifies = "__getitem__" in ad.methods and any(
+            isinstance(c, ast.Call) and isinstance(c.func, ast.Attribute) and c.func.attr == "__setitem__" for c in ast.walk(ad.methods["__getitem__"].node))
+    except AnalysisError:
+        vivifies = False
+    if not vivifies:
+        rep.ok("R-C18-6", "wavespectra/core/attributes.py AttrDict", "__getitem__ does not insert on a miss", "lookups are pure")
+        return
+    nsite = 0
+    for fi in repo.all_funcs():
+        if fi.qualname.startswith("wavespectra.core.attributes.AttrDict"):
+            continue
+        for n in ast.walk(fi.node):
+            if not (isinstance(n, ast.Subscript) and isinstance(n.ctx, ast.Load)):
+                continue
+            base = n.value
+            root = base
+            while isinstance(root, (ast.Attribute, ast.Subscript)):
+                root = root.value
+            if not (isinstance(root, ast.Name) and root.id == "attrs" and isinstance(base, ast.Attribute) and base.attr == "ATTRS"):
+                continue
+            nsite += 1
+            key = n.slice
+            kc = repo.const(fi.module, key)
+            where = f"{fi.file}:{n.lineno} {fi.short}"
+            if isinstance(kc, str):
+                rep.ok("R-C18-6", where, ast.unparse(n), f"constant key {kc!r} of the table")
+                continue
+            ktxt = ast.unparse(key)
+            guarded = False
+            p = getattr(n, "_parent", None)
+            child = n
+            while p is not None and p is not fi.node:
+                if isinstance(p, ast.If) and any(child is s_ or any(child is x for x in ast.walk(s_)) for s_ in p.body):
+                    for c in ast.walk(p.test):
+                        if isinstance(c, ast.Compare) and len(c.ops) == 1 and isinstance(c.ops[0], ast.In) and ast.unparse(c.left) == ktxt \
+                                and ast.unparse(c.comparators[0]) == ast.unparse(base):
+                            guarded = True
+                # guard clause earlier in an enclosing block:  if k not in table: raise / return
+                for fld in ("body", "orelse", "finalbody"):
+                    blk = getattr(p, fld, None)
+                    if isinstance(blk, list) and any(child is s_ for s_ in blk):
+                        for s_ in blk:
+                            if s_ is child:
+                                break
+                            if isinstance(s_, ast.If) and ends_with_exit(s_.body) and isinstance(s_.test, ast.Compare) and len(s_.test.ops) == 1 \
+                                    and isinstance(s_.test.ops[0], ast.NotIn) and ast.unparse(s_.test.left) == ktxt \
+                                    and ast.unparse(s_.test.comparators[0]) == ast.unparse(base):
+                                guarded = True
+                child, p = p, getattr(p, "_parent", None)
+            if guarded:
+                rep.ok("R-C18-6", where, ast.unparse(n), f"dominated by `{ktxt} in {ast.unparse(base)}`")
+            else:
+                rep.fail("R-C18-6", fi.file, n.lineno, fi.qualname, ast.unparse(n),
+                         f"lookup with the non-constant key '{ktxt}' and no dominating membership test: for a name that is not in attributes.yml the "
+                         "auto-vivifying table inserts an empty entry, and from then on every `name in attrs.ATTRS` test in the process answers "
+                         "differently (set_spec_attributes then wipes that variable's attributes)", anchor=f"vivify-site:{fi.short}:{ktxt}")
+    rep.floor("R-C18-6", "lookup sites of the attribute table", nsite, 5)
+
+
 def run(repo, rep, tier):
     rep.rule("R-C18-1", "classes registered as xarray accessors (one cached instance per object) and Partition keep no "
                         "state derived from the wrapped object: the only instance attributes are the wrapped reference "
@@ -120,6 +190,7 @@ def run(repo, rep, tier):
     rep.analysed.update({"functions": len(eng.funcs), "entry_points": len(entries), "fixpoint_iterations": iters,
                          "sinks_examined": eng.sinks, "accessor_classes": [c.name for c in acc_classes]})
 
+    vivifying_lookups(repo, rep)
     # ---- R-C18-5: interpreter-wide settings ------------------------------------------------------------
     rep.rule("R-C18-5", "call-time changes of interpreter-wide settings (warning filters, numpy error state, xarray options, "
                         "environment, locale, RNG seed) happen only inside the context manager that restores them")
